@@ -267,6 +267,17 @@ Theorem C13_transport_enable_is_in_force : forall ops o,
 Proof. exact transport_enable_is_in_force. Qed.
 Print Assumptions C13_transport_enable_is_in_force.
 
+(* a setter called after the dump was enabled and after SetCommonDumpOptions reaches the running
+   Dumper (SetCommonDumpOptions re-points it at the struct the later setters edit) *)
+Theorem C13_setters_after_set_common_take_effect : forall ops o ps w,
+  c_has (run_cops ops) = true ->
+  in_force (run_cops (ops ++ [CSetCommon o; CWithout ps])) =
+    Some (switch_off ps (client_set_options (c_opts (run_cops ops)) o)) /\
+  in_force (run_cops (ops ++ [CSetCommon o; CEnableAllTo w])) =
+    Some (set_out (client_set_options (c_opts (run_cops ops)) o) (Some w)).
+Proof. exact setters_after_set_common_take_effect. Qed.
+Print Assumptions C13_setters_after_set_common_take_effect.
+
 (* ---- one drain goroutine per queue ---- *)
 Theorem C13_one_drainer_in_order : forall d ops,
   (forall op, In op ops -> drainer_of op = None \/ drainer_of op = Some d) ->
@@ -364,6 +375,15 @@ Theorem C13_unguarded_clone_refuted :
   in_force (cclone (run_cops ops)) = Some o.
 Proof. exact unguarded_clone_uses_stale_options. Qed.
 Print Assumptions C13_unguarded_clone_refuted.
+
+(* SetCommonDumpOptions keeping a private copy while the running Dumper reads the caller's struct (g-m2) *)
+Theorem C13_split_set_common_refuted :
+  let o := mkOpts (Some 10%N) None None None None None None true true true true false in
+  let ops := [CEnableAllTo 17%N; CSetCommon o; CWithout [PRespB]] in
+  in_force (fold_left cstep_split ops c0) = Some o /\
+  in_force (run_cops ops) = Some (switch_off [PRespB] o).
+Proof. exact split_set_common_ignores_later_setters. Qed.
+Print Assumptions C13_split_set_common_refuted.
 
 (* a Stop that unlocks right after marking the queue (f-m3) *)
 Theorem C13_unlocked_stop_reorders :
